@@ -6842,19 +6842,21 @@ class SFTPServerHandler(SFTPHandler):
 
                 data: bytes
 
+                # Only an empty read means end of file: a read which
+                # returns less than was asked for has to be continued
+                if not data:
+                    break
+
                 result = self._server.write(dst, write_to_offset, data)
 
                 if inspect.isawaitable(result):
                     await result
 
-                if len(data) < size:
-                    break
-
-                read_from_offset += size
-                write_to_offset += size
+                read_from_offset += len(data)
+                write_to_offset += len(data)
 
                 if not read_to_end:
-                    read_from_length -= size
+                    read_from_length -= len(data)
         else:
             raise SFTPInvalidHandle('Invalid file handle')
 
